@@ -221,6 +221,13 @@ func genC01(g *Rng, tier string, emit func(Op)) {
 						emit(verifyDOp(kp.id, t2, ctx, nonce, false, "shift-disclosed", label))
 					}
 				}
+				// a crafted member that reports values nobody signed, bound to nothing (its contribution
+				// cannot be reconstructed), behind a genuine proof / alone
+				if !toy && len(disclosed) > 0 {
+					for _, o := range unboundMemberOps(g, []*KeyPair{kp}, []any{tree}, ctx, nonce, false, "C01/unbound-member") {
+						emit(o)
+					}
+				}
 				// a signature with an exponent far below its interval (e = 1 needs no private key at all:
 				// A = Z / (S^v prod R_i^m_i)), presented with an e-randomiser large enough to keep the
 				// e-response positive: only the bound on the e-response, as the specification derives it
